@@ -149,6 +149,31 @@ def type_chain_projects(rng, quick):
     return out
 
 
+def long_line_faults(rng, quick):
+    """a diagnostic at every region of a long line (the quote of a line longer than 200 bytes is cut: jerr/utils.go), the
+    line being the last of its file, followed by a line end, or by more text; in the root file and in an included one"""
+    J = "JSIGHT 0.3\n"
+    out = []
+    for total in ([120, 196, 199, 200, 201, 204, 260, 420] if quick else [120, 190, 196, 197, 198, 199, 200, 201, 202, 204, 230, 260, 420, 900, 5000]):
+        for where in (0.0, 0.5, 0.9, 1.0):
+            props = []
+            while len(",".join(props)) < total:
+                props.append('"p%d":%d' % (len(props), rng.randint(0, 99)))
+            k = min(len(props) - 1, int(where * len(props)))
+            for bad in ('"bad":}', '"p0":1', '"b":@nope', '"b":1 x'):
+                pp = props[:k] + [bad] + props[k:]
+                body = "{" + ",".join(pp) + "}"
+                for tail in ("", "\n", "\n\nGET /y\n  200 any\n"):
+                    out.append([("a.jst", J + "GET /x\n  200 @t\nTYPE @t\n  " + body + tail)])
+                out.append([("a.jst", J + "GET /x\n  200 @t\nINCLUDE t.jst\n"), ("t.jst", "TYPE @t\n  " + body)])
+            # a fault in the parameters of a long directive line
+            path = "/x" + "a" * max(1, total - 10)
+            for tail in ("", "\n"):
+                out.append([("a.jst", J + "GET " + path + " extra" + tail)])
+                out.append([("a.jst", J + "GET /x\n  200 any // " + "n" * total + tail.replace("\n", "\n  Bogus\n"))])
+    return out
+
+
 LIB_FAULT_ID = "C01/schema-library-runtime-fault-text"
 
 
@@ -219,6 +244,7 @@ def run(res, tier, seed, replay):
         sm = slot_matrix()
         projects += sm
         projects += type_chain_projects(rng, quick)
+        projects += long_line_faults(rng, quick)
         from . import c07 as M7
         for items, n, what in M7.cycle_documents(rng, quick):
             projects.append([("a.jst", M7.render(items)[0])])
